@@ -100,7 +100,10 @@ impl Reporter {
             }
         }
         // a run that dies before `finish` must not leave an older run's evidence behind
-        let _ = std::fs::remove_file(verif_root().join("evidence").join(format!("{property}.json")));
+        // (a replay is not a run of the check: it leaves the evidence alone)
+        if std::env::var("MCX_REPLAY").is_err() {
+            let _ = std::fs::remove_file(verif_root().join("evidence").join(format!("{property}.json")));
+        }
         Self {
             property: property.to_string(),
             engine: engine.to_string(),
